@@ -483,6 +483,7 @@ def _run(case, scratch):
   plans.append(('earlier_copy_appears', None))
   plans.append(('absolute_name_is_not_package_relative', None))
   plans.append(('dynamic_names_do_not_cross_files', None))
+  plans.append(('module_is_not_a_package', None))
   for label, plan in plans:
     if only and label != only:
       continue
@@ -494,6 +495,8 @@ def _run(case, scratch):
       _abs_vs_package(case, scratch, v, lg, cnt)
     elif label == 'dynamic_names_do_not_cross_files':
       _dynamic_foreign_names(case, scratch, v, lg)
+    elif label == 'module_is_not_a_package':
+      _module_is_not_a_package(case, scratch, v, lg)
     elif label == 'entry':
       _entry(case, scratch, v, lg, cnt)
     elif plan[0] == 'missing':
@@ -618,6 +621,46 @@ def _abs_vs_package(case, scratch, v, lg, cnt):
   elif not isinstance(exc, OSError):
     v('C14.missing_is_ioerror', ['absolute', type(exc).__name__],
       'unreadable absolute name raised %s' % type(exc).__name__)
+
+
+def _module_is_not_a_package(case, scratch, v, lg):
+  """Package-relative names resolve through PACKAGES on the Python path: a
+  plain module (or a built-in one) is no location that could hold a file."""
+  gin = world.gin
+  _clean_scratch(scratch)
+  world.reset()
+  _setup(case, scratch)
+  pyroot = os.path.join(scratch, 'pyroot')
+  with open(os.path.join(pyroot, 'vplainmod.py'), 'w') as f:
+    f.write('X = 1\n')
+  with open(os.path.join(pyroot, 'next_to_module.gin'), 'w') as f:
+    f.write("f0.a = 'next-to-a-module'\n")
+  with open(os.path.join(pyroot, 'vpk0', 'inner_mod.py'), 'w') as f:
+    f.write('Y = 2\n')
+  with open(os.path.join(pyroot, 'vpk0', 'beside_inner.gin'), 'w') as f:
+    f.write("f0.a = 'beside-a-submodule'\n")
+  import importlib
+  importlib.invalidate_caches()
+  for name in ('vplainmod/next_to_module.gin', 'vpk0/inner_mod/beside_inner.gin',
+               'sys/next_to_module.gin'):
+    exc = None
+    try:
+      gin.parse_config_file(name)
+    except Exception as e:  # pylint: disable=broad-except
+      exc = e
+    got = _snapshot()
+    lg.add('module_is_not_a_package', name, type(exc).__name__ if exc else None)
+    if exc is None:
+      v('C14.missing_is_ioerror', ['module-not-package', name.split('/')[0]],
+        '%r names no file (%s is a module, not a package or directory), yet it '
+        'was read: %r' % (name, name.rsplit('/', 1)[0], got))
+      break
+    elif not isinstance(exc, OSError):
+      v('C14.missing_is_ioerror', ['module-not-package', type(exc).__name__],
+        '%r raised %s' % (name, type(exc).__name__))
+      break
+  for m in ('vplainmod', 'vpk0.inner_mod'):
+    sys.modules.pop(m, None)
 
 
 def _dynamic_foreign_names(case, scratch, v, lg):
